@@ -64,7 +64,14 @@ Record proto := {
   p_stop_keeps_payload : bool;           (* the Stop callback does not delete the stored payload (introduce) *)
   (* introduce: continuing a (msg, opt) event saves the instance id with the metadata of the message's thread, and an
      inbound message belongs first of all to the instance stored with its thread's metadata *)
-  p_meta : option (N * N)
+  p_meta : option (N * N);
+  (* generated (go/ast over ExecuteInbound; DID Exchange, legacy Connection): (state, message type) -> follow-up.
+     When present the machine PREDICTS the follow-up of every executed state from this table; the op's tape then only
+     says whether an Execute failed on the CONTENT of the message (signature, DID resolution: C10's subject) *)
+  p_follow : option (list (st * N * option st));
+  (* the listener abandons by writing the abandon state itself and announcing it afterwards (DID Exchange: abandon());
+     otherwise the abandon state is executed through handle like any other *)
+  p_abandon_direct : bool
 }.
 
 Definition pair_eqb (a b : st * st) : bool := N.eqb (fst a) (fst b) && N.eqb (snd a) (snd b).
@@ -118,6 +125,12 @@ Definition exec_tbl (p : proto) (c : st) (v3 inbound : bool) (opt : N) (flag : b
                 N.eqb c c' && Bool.eqb v3 v' && Bool.eqb inbound i' && N.eqb opt o' && Bool.eqb flag f' end)
              (p_exec p) with
   | Some (_, _, _, _, _, x) => x
+  | None => None
+  end.
+
+Definition follow_tbl (l : list (st * N * option st)) (c : st) (m : N) : option st :=
+  match find (fun r => match r with (c', m', _) => N.eqb c c' && N.eqb m m' end) l with
+  | Some (_, _, x) => x
   | None => None
   end.
 
@@ -182,7 +195,8 @@ Definition store_ev (s : sstate) (t : thid) (i : nat) : sstate :=
   {| persisted := persisted s; pending := pending s; stored := (t, Some i) :: stored s; meta := meta s |}.
 
 (* parameters of one execution context *)
-Record ctx := { c_v3 : bool; c_inbound : bool; c_opt : N; c_flag : bool; c_f : fault; c_badtid : bool; c_pr : bool }.
+Record ctx := { c_v3 : bool; c_inbound : bool; c_opt : N; c_flag : bool; c_f : fault; c_badtid : bool; c_pr : bool;
+                c_msg : N   (* the type of the message being handled *) }.
 
 (* the follow-up of executing state c: a terminal state executed inbound has no follow-up
    (done/abandoned/completed return noOp; Spec.exec_terminal_b checks the generated table against this rule);
@@ -192,12 +206,22 @@ Definition exec1 (p : proto) (k : ctx) (c : st) (tape : list (option st)) : opti
      Execute fails (unless the message itself is a problem report, which is not answered) *)
   if negb (p_tape p) && N.eqb c (p_abandon p) && c_badtid k && negb (c_pr k) then (None, tape)
   else if terminal p c && c_inbound k then (Some 0, tape)
-  else if p_tape p then
+  else match p_follow p with
+  | Some tbl =>
+      (* predicted from the generated table; a `None` on the tape = the Execute failed on the message's content *)
+      match tape with
+      | None :: r => (None, r)
+      | _ :: r => (follow_tbl tbl c (c_msg k), r)
+      | [] => (follow_tbl tbl c (c_msg k), [])
+      end
+  | None =>
+  if p_tape p then
     match tape with
     | [] => (Some 0, [])
     | x :: r => (x, r)
     end
-  else (exec_tbl p c (c_v3 k) (c_inbound k) (c_opt k) (c_flag k), tape).
+  else (exec_tbl p c (c_v3 k) (c_inbound k) (c_opt k) (c_flag k), tape)
+  end.
 
 (* result of running handle's loop *)
 Record cres := {
@@ -308,6 +332,11 @@ Definition process (p : proto) (s : sstate) (t : thid) (k : ctx) (m : N) (c : st
              | None => s1
              end in
   if r_ok r1 then (s1', r_ann r1, true, false)
+  else if ab && p_abandons p && p_abandon_direct p then
+    (* one more state write; when it fails nothing is announced *)
+    if hit (f_put (c_f k)) (r_np r1) then (s1, r_ann r1, false, false)
+    else (commit s1 t (Some (p_abandon p)), r_ann r1 ++ [p_abandon p], false,
+          negb skip && terminal p (last (r_ann r1) (cur p s t)))
   else if ab && p_abandons p then
     let r2 := run_chain p k (p_abandon p) (r_tape r1) (r_np r1) (r_ix r1) in
     (commit s1 t (r_pers r2), r_ann r1 ++ r_ann r2, false,
@@ -329,7 +358,7 @@ Definition msg_step (p : proto) (s : sstate) (outbound : bool) (m : N) (v3 flag 
                                  t (length (pending s)), (RAction, []), false)
                else
                  let k := {| c_v3 := v3; c_inbound := negb outbound; c_opt := 0; c_flag := flag; c_f := f; c_badtid := bt;
-                             c_pr := N.eqb m (p_pr p) |} in
+                             c_pr := N.eqb m (p_pr p); c_msg := m |} in
                  let '(s1, ann, ok, _) := process p s t k m x false false tape in
                  (s1, (if ok || p_async p
                        then (if Nat.ltb (length (pending s)) (length (pending s1)) then RAction else ROk)
@@ -342,7 +371,7 @@ Definition decide (p : proto) (s : sstate) (i : nat) (v : ev) (opt : N) (stop : 
   let skip := if stop then negb (memN (e_msg v) (p_stop_handles p))
               else existsb (fun r => N.eqb (fst r) (e_msg v) && N.eqb (snd r) opt) (p_cont_stops p) in
   let k := {| c_v3 := e_v3 v; c_inbound := true; c_opt := opt; c_flag := e_flag v; c_f := f; c_badtid := e_badtid v;
-              c_pr := N.eqb (e_msg v) (p_pr p) |} in
+              c_pr := N.eqb (e_msg v) (p_pr p); c_msg := e_msg v |} in
   let '(s2, ann, ok, fat) := process p (killed s i (e_t v)) (e_t v) k (e_msg v) (e_st v) skip true tape in
   let saves := match p_meta p with
                | Some (m, o) => negb stop && N.eqb (e_msg v) m && N.eqb opt o
@@ -416,7 +445,7 @@ Definition step_full (p : proto) (s : sstate) (o : op) : sstate * (res * list st
           if N.eqb (cur p s (e_t v)) (e_src v) then
             let s' := killed s e (e_t v) in
             let k := {| c_v3 := e_v3 v; c_inbound := true; c_opt := 0; c_flag := e_flag v; c_f := nofault; c_badtid := e_badtid v;
-                        c_pr := N.eqb (e_msg v) (p_pr p) |} in
+                        c_pr := N.eqb (e_msg v) (p_pr p); c_msg := e_msg v |} in
             let '(s2, ann, ok, _) := process p s' (e_t v) k (e_msg v) (e_st v) false false tape in
             (s2, (if ok then ROk else RErr, ann), false)
           else (s, (RReject, []), false)
